@@ -40,7 +40,7 @@ CLAIMS = {
              "with None once per right column; full_join records the right row of every emitted pair inside the emission "
              "loop and sweeps range(len(other)) afterwards emitting exactly the unrecorded rows (None per left column), "
              "which gives right-table order; matched-pair block fact-equal to inner_join's (inner ⊆ left ⊆ full by "
-             "construction). Value-level multiset symmetry is NOT decided.",
+             "construction). No rejection of _validate_join_keys depends on more than spec form, lengths and key KIND (an all-None key column on either side is admitted - shared with C09.a). Value-level multiset symmetry is NOT decided.",
         note="A structural necessary condition is decided, not the behaviour (see C09).",
         technique="term-domain abstract interpretation -> semantic join model; per-context emission discipline (matched / unmatched-left / sweep); sibling fact comparison",
         design="2/C10"),
@@ -244,7 +244,7 @@ CLAIMS = {
              "reaching definitions / call sites (x[-0:] would be everything); max()/min()/x[0] over possibly empty sequences are "
              "guarded; the footer reads len(pv)/pv.shape/pv._dtype and a dtype list computed over ALL columns, homogeneity is "
              "decided over all columns; the preview is head k + ellipsis + tail k iff len > 2k with exactly one halving of the "
-             "row budget on each path (global default and per-table override); headers show stored names (judged for a name that needs quoting, a plain name, the empty name '' and NO name: no name never takes the display value of a text, the name row is shown when any name is not None, a vector named '' shows its name line); repr is pure. The row limit is converted with operator.index() when it is set (a setting that is not an integer cannot reach a slice bound).",
+             "row budget on each path (global default and per-table override); headers show stored names (judged for a name that needs quoting, a plain name, the empty name '' and NO name: no name never takes the display value of a text, the name row is shown when any name is not None, a vector named '' shows its name line); an int element printed in front of a literal '.0' uses the integer presentation (a bool is an int); repr is pure. The row limit is converted with operator.index() when it is set (a setting that is not an integer cannot reach a slice bound).",
         note="Totality over arbitrary user objects whose __str__/__eq__ raise, alignment and exact line counts are not decided.",
         technique="guard/dominance analysis + interprocedural positivity of slice bounds + definite assignment with correlated branch outcomes + term-domain evaluation of footer inputs (dtype token per situation) + effect summaries",
         design="2/C20"),
